@@ -18,6 +18,25 @@ def showNtfn (n : Ntfn) : String := s!"{if n.connected then "c" else "d"}{n.heig
 
 def showList (l : List Ntfn) : String := "[" ++ " ".intercalate (l.map showNtfn) ++ "]"
 
+/-- for messages: at most the last/first 8 elements -/
+def showTail (l : List Ntfn) : String :=
+  if l.length ≤ 8 then showList l else s!"[…{l.length - 8} more… " ++ " ".intercalate ((l.drop (l.length - 8)).map showNtfn) ++ "]"
+def showHead (l : List Ntfn) : String :=
+  if l.length ≤ 8 then showList l else "[" ++ " ".intercalate ((l.take 8).map showNtfn) ++ s!" …{l.length - 8} more…]"
+
+/-- first position at which a received batch leaves the expected stream -/
+def firstBad (o : Obs) : List Ntfn → Nat → Option (Nat × Ntfn × Option Ntfn)
+  | [], _ => none
+  | n :: ns, k =>
+    match (o.recv1 n) with
+    | (o', .ok) => firstBad o' ns (k + 1)
+    | _ => some (k, n, (o.expected.drop o.got.length).head?)
+
+def explain (o : Obs) (items : List Ntfn) : String :=
+  match firstBad o items 0 with
+  | some (k, n, e) => s!"item #{o.got.length + k} of its stream is {showNtfn n}, expected {(e.map showNtfn).getD "nothing"}; before it {showTail (o.got ++ items.take k)}; expected continuation {showHead (o.expected.drop (o.got.length + k))}"
+  | none => ""
+
 def parseList (ws : List String) : Option (List Ntfn) := ws.mapM parseNtfn
 
 /-- the canonical schedule the driver compares under: after every call every
@@ -59,7 +78,8 @@ def runCase : CaseFn := fun c => Id.run do
   for (ln, line) in c.lines do
     let (op, ob) := splitObs line
     let ws := words op
-    let fail := fun (shape msg : String) => s!"ORACLE-FAIL C11 case {c.num} line {ln}: shape={shape} {msg}"
+    let sfx := if kind == "stoprace" then "-during-stop" else ""
+    let fail := fun (shape msg : String) => s!"ORACLE-FAIL C11 case {c.num} line {ln}: shape={shape}{sfx} {msg}"
     let diff := fun (msg : String) => s!"DIFF C11 case {c.num} line {ln}: {op} impl=<{ob}> {msg}"
     match ws with
     | "status" :: _ =>
@@ -114,7 +134,7 @@ def runCase : CaseFn := fun c => Id.run do
       | some (items, tail) =>
         let o0 := obsOf obs i
         let (o1, v) := o0.recv items
-        if v != .ok then out := out.push (fail v.shape s!"subscriber {i} received {showList items} after {showList o0.got}, expected next {showList ((o0.expected.drop o0.got.length).take (items.length + 1))}")
+        if v != .ok then out := out.push (fail v.shape s!"subscriber {i}: {explain o0 items}")
         let mut o2 := o1
         if tail == ["closed"] then
           let (o', v') := o1.close
@@ -123,7 +143,7 @@ def runCase : CaseFn := fun c => Id.run do
         else if tail == ["timeout"] then
           -- the harness only asks a live subscriber for items that are pending
           let v' := if o1.ended then Verdict.notClosed else Verdict.missing (k - items.length)
-          out := out.push (fail v'.shape s!"subscriber {i}: asked for {k}, got {items.length} then nothing (expected stream {showList o1.expected}, got {showList o1.got})")
+          out := out.push (fail v'.shape s!"subscriber {i}: asked for {k}, got {items.length} then nothing; received so far {showTail o1.got}, still owed {showHead (o1.expected.drop o1.got.length)}")
         obs := setObs obs i o2
         if det && !diverged then
           let (s', got, t) := readN st i k []
@@ -140,7 +160,7 @@ def runCase : CaseFn := fun c => Id.run do
         | some n =>
           let (o1, v) := o0.recv [n]
           obs := setObs obs i o1
-          if v != .ok then out := out.push (fail v.shape s!"subscriber {i} received {w} after {showList o0.got}")
+          if v != .ok then out := out.push (fail v.shape s!"subscriber {i}: {explain o0 [n]}")
         | none => out := out.push (diff "unparsable item")
       | ["closed"] =>
         let (o1, v) := o0.close
@@ -149,7 +169,7 @@ def runCase : CaseFn := fun c => Id.run do
       | _ =>
         -- read dry at a quiescence point
         let v := o0.settled false
-        if v != .ok then out := out.push (fail v.shape s!"subscriber {i} at quiescence: got {showList o0.got} of expected {showList o0.expected}, channel open and empty")
+        if v != .ok then out := out.push (fail v.shape s!"subscriber {i} at quiescence: channel open and empty; received so far {showTail o0.got}, still owed {showHead (o0.expected.drop o0.got.length)}")
       if det && !diverged then
         let (s', o) := step st (.consume i)
         st := forwardN s' i 1
@@ -184,7 +204,7 @@ def runCase : CaseFn := fun c => Id.run do
       | some (items, tail) =>
         let o0 := obsOf obs i
         let (o1, v) := o0.recv items
-        if v != .ok then out := out.push (fail v.shape s!"subscriber {i} received {showList items}, expected a prefix of {showList o0.expected}")
+        if v != .ok then out := out.push (fail v.shape s!"subscriber {i}: {explain o0 items}")
         if tail != ["closed"] then out := out.push (fail "not-closed" s!"subscriber {i}: channel still open after Stop returned")
         obs := setObs obs i o1
     | _ => out := out.push (diff "unparsable op")
